@@ -832,6 +832,9 @@ func c11raceMain() {
 				continue
 			}
 			for _, w := range []int{s.Workers, 4, 16} {
+				if stalls >= 2 || !time.Now().Before(deadline) {
+					break // a code change that makes free runs hang would otherwise cost 90 s per scenario; termination is the scheduler's business
+				}
 				t := s
 				t.Workers = w
 				var obs string
